@@ -433,3 +433,106 @@ Proof.
 Qed.
 
 End Sound.
+
+(* ---------- consequences in the wording of the property ---------- *)
+Lemma hdiff_unique n m F x L L' :
+  hdiff n m F x L -> hdiff n m F x L' -> length x = n ->
+  forall d, length d = n -> L d = L' d.
+Proof.
+  intros H1 H2 Hx d Hd.
+  destruct (H1 _ _ (curve_line n x d Hx Hd)) as (_ & A1 & _ & A2).
+  destruct (H2 _ _ (curve_line n x d Hx Hd)) as (_ & B1 & _ & B2).
+  apply nth_ext0; [congruence|]. intros i Hi. rewrite A1 in Hi.
+  eapply uniqueness_limite; [apply A2|apply B2]; exact Hi.
+Qed.
+
+Section Consequences.
+Variable af : nat -> Rvec -> Rvec.
+Variable ad : nat -> Rvec -> Rvec -> Rvec.
+Variable adm arn : nat -> space.
+Notation P := (PR af ad adm arn).
+Hypothesis Habs : forall k x, length x = sdim (adm k) ->
+  hdiff (sdim (adm k)) (sdim (arn k)) (af k) x (ad k x) /\
+  blin (sdim (adm k)) (sdim (arn k)) (ad k x).
+
+Lemma deriv_central (e : oexprR) x :
+  wt P e = true -> length x = sdim (dom P e) -> deriv_ok P e x = true -> regular af ad adm arn e x ->
+  forall d, length d = sdim (dom P e) -> forall i, (i < sdim (ran P e))%nat ->
+  forall eps, 0 < eps -> exists delta, 0 < delta /\
+    forall h, h <> 0 -> Rabs h < delta ->
+      Rabs ((nth i (eval P e (vadd x (vscal h d))) 0 - nth i (eval P e (vadd x (vscal (- h) d))) 0) / (2 * h)
+            - nth i (eval P (derivative P e x) d) 0) < eps.
+Proof.
+  intros Hw Hx Hok Hreg.
+  destruct (deriv_sound af ad adm arn Habs e x Hw Hx Hok Hreg) as (H1 & _).
+  apply (hdiff_central_difference _ _ _ _ _ H1 Hx).
+Qed.
+
+(* linear operators are their own derivative: whatever object derivative returns acts like e *)
+Lemma lin_deriv_self (e : oexprR) x :
+  is_lin e = true -> wt P e = true -> length x = sdim (dom P e) ->
+  deriv_ok P e x = true -> regular af ad adm arn e x ->
+  forall d, length d = sdim (dom P e) -> eval P (derivative P e x) d = eval P e d.
+Proof.
+  intros Hl Hw Hx Hok Hreg d Hd.
+  destruct (deriv_sound af ad adm arn Habs e x Hw Hx Hok Hreg) as (H1 & _).
+  destruct (lin_sound af ad adm arn Habs e x Hl Hw Hx) as (H2 & _).
+  apply (hdiff_unique _ _ _ _ _ _ H1 H2 Hx d Hd).
+Qed.
+
+(* affine operators have the derivative of their linear part *)
+Lemma affine_deriv (a : oexprR) v x :
+  is_lin a = true -> wt P (OVecSum a v) = true -> length x = sdim (dom P a) ->
+  deriv_ok P a x = true -> regular af ad adm arn a x ->
+  forall d, length d = sdim (dom P a) -> eval P (derivative P (OVecSum a v) x) d = eval P a d.
+Proof.
+  intros Hl Hw Hx Hok Hreg d Hd. cbn [derivative].
+  cbn [wt] in Hw. apply andb_prop in Hw as [Wa _].
+  apply lin_deriv_self; assumption.
+Qed.
+End Consequences.
+
+(* ---------- non-vacuity: a user-defined leaf satisfying the hypothesis ---------- *)
+Definition cubicR (a : R) : R := a * a * a - a.
+Definition cubicR' (a : R) : R := 3 * a * a - 1.
+Definition ex_af (k : nat) (x : Rvec) : Rvec := map cubicR x.
+Definition ex_ad (k : nat) (x d : Rvec) : Rvec := vmul (map cubicR' x) d.
+Definition ex_dm (k : nat) : space := SV k.
+
+Lemma dpl_cubic a : derivable_pt_lim cubicR a (cubicR' a).
+Proof.
+  unfold cubicR, cubicR'.
+  apply (dpl_eq _ _ (((1 * a + a * 1) * a + a * a * 1) - 1)); [ring|].
+  apply (derivable_pt_lim_minus (fun y => y * y * y) (fun y => y)); [|apply derivable_pt_lim_id].
+  apply (derivable_pt_lim_mult (fun y => y * y) (fun y => y)); [|apply derivable_pt_lim_id].
+  apply (derivable_pt_lim_mult (fun y => y) (fun y => y)); apply derivable_pt_lim_id.
+Qed.
+
+Lemma ex_Habs : forall k x, length x = sdim (ex_dm k) ->
+  hdiff (sdim (ex_dm k)) (sdim (ex_dm k)) (ex_af k) x (ex_ad k x) /\
+  blin (sdim (ex_dm k)) (sdim (ex_dm k)) (ex_ad k x).
+Proof.
+  intros k x Hx. cbn [ex_dm sdim] in *. split.
+  - apply (hdiff_ext_len _ _ _ _ (fun d => vmul d (map cubicR' x))).
+    { intros d _. apply vmul_comm. }
+    intros g d Hc. apply (curve_map _ cubicR cubicR'); [exact Hc|]. intros i _. apply dpl_cubic.
+  - apply (blin_ext _ _ (fun d => vmul d (map cubicR' x))).
+    { intros d. apply vmul_comm. }
+    apply blin_mulv. rewrite map_length. exact Hx.
+Qed.
+
+(* a tree using every expression class, at a regular point *)
+Definition ex_tree : @oexpr R :=
+  OSum (OComp (OLeaf (LUf Usquare 2)) (ORScal (OLeaf (LAbs 2)) 2))
+       (OPProd (OLVec (OLeaf (LUf Ureciprocal 2)) [1; 2])
+               (OVecSum (ORVec (OLScal (OLeaf (LPow (SV 2) 3)) 3) [2; 1])
+                        [1; 1])).
+Lemma ex_premises :
+  let P := PR ex_af ex_ad ex_dm ex_dm in
+  wt P ex_tree = true /\ is_lin ex_tree = false /\ length [1; 2] = sdim (dom P ex_tree) /\
+  deriv_ok P ex_tree [1; 2] = true /\ regular ex_af ex_ad ex_dm ex_dm ex_tree [1; 2].
+Proof.
+  cbn. repeat split; try reflexivity.
+  - intros i Hi. destruct i as [|[|i]]; [lra|lra|lia].
+  - intros Hz; lia.
+Qed.
